@@ -159,3 +159,16 @@ Fixpoint py_dict_getd {K V : Type} (eqb : K -> K -> bool) (d : list (K * V)) (k 
   | [] => default
   | (k', v) :: t => if eqb k k' then v else py_dict_getd eqb t k default
   end.
+
+(* del d[k]: KeyError when the key is missing *)
+Fixpoint py_dict_del {K V : Type} (eqb : K -> K -> bool) (d : list (K * V)) (k : K) : res (list (K * V)) :=
+  match d with
+  | [] => Raise KeyError
+  | (k', v) :: t =>
+    if eqb k k' then Ok t
+    else match py_dict_del eqb t k with Ok t' => Ok ((k', v) :: t') | Raise e => Raise e end
+  end.
+
+(* d.update(o) for a dict o: its entries are assigned in its order *)
+Definition py_dict_update {K V : Type} (eqb : K -> K -> bool) (d o : list (K * V)) : list (K * V) :=
+  fold_left (fun acc kv => py_dict_set eqb acc (fst kv) (snd kv)) o d.
